@@ -239,45 +239,11 @@ Definition clause_dup (c : case) : bool :=
   | _, _ => false
   end.
 
-(* ---- known-finding classes, functions of the input only ---- *)
-(* K1: an == comparison of two maps that are equal but list their keys in a different order *)
-Fixpoint k1_steps (m : vmap) (ops : list mop) : bool :=
-  match ops with
-  | [] => false
-  | o :: r =>
-      (match o with
-       | OEq l => match spec_literal (lit l) with
-                  | Some m2 => spec_map_eq m m2 && negb (veq (VMap m) (VMap m2))
-                               && negb (match m, m2 with [], [] => true | _, _ => false end)
-                  | None => false
-                  end
-       | _ => false
-       end)
-      || match step_spec m o with Some (m', _) => k1_steps m' r | None => false end
-  end.
-Definition known_K1 (c : case) : bool :=
-  match spec_literal (lit (c_init c)) with Some m => k1_steps m (c_ops c) | None => false end.
-
-(* K2: map.set with a key path whose first key is present in the map
-   (rsass removes that key and re-inserts it last) *)
-Fixpoint k2_steps (m : vmap) (ops : list mop) : bool :=
-  match ops with
-  | [] => false
-  | o :: r =>
-      (match o with
-       | OSet (k :: _ :: _) _ => sp_has veq m (kp k)
-       | _ => false
-       end)
-      || match step_spec m o with Some (m', _) => k2_steps m' r | None => false end
-  end.
-Definition known_K2 (c : case) : bool :=
-  match spec_literal (lit (c_init c)) with Some m => k2_steps m (c_ops c) | None => false end.
-
 Definition b2z (b : bool) : Z := if b then 1%Z else 0%Z.
 
 (* [corr; ops ok; class; eq ok; class; dup ok; class] *)
 Definition run (c : case) : list Z :=
   [ corr c;
-    b2z (clause_ops c); (if known_K2 c then 2 else 0)%Z;
-    b2z (clause_eq c); (if known_K1 c then 1 else if known_K2 c then 2 else 0)%Z;
+    b2z (clause_ops c); 0%Z;
+    b2z (clause_eq c); 0%Z;
     b2z (clause_dup c); 0%Z ].
